@@ -630,9 +630,49 @@ fn growing_file(ctx: &Ctx, report: &mut Report) {
   }
 }
 
+/// The torrent is written (with --force) over a file that is part of the tree it describes: what is hashed is the tree as
+/// it was when the command started - the old file with its old bytes.
+fn output_inside_the_tree(ctx: &Ctx, report: &mut Report) {
+  let sb = Sandbox::new(&ctx.work, "c01o");
+  let old: Vec<u8> = (0..314u32).map(|i| (i % 251) as u8).collect();
+  let files: Vec<(String, Vec<u8>)> = vec![("a".into(), vec![b'a'; 100]), ("old.torrent".into(), old.clone()), ("z".into(), vec![b'z'; 33])];
+  for (n, d) in &files {
+    sb.write(&format!("content/{n}"), d);
+  }
+  let out = Cmd::new(&ctx.imdl, &["torrent", "create", "--input", "content", "--output", "content/old.torrent", "--force", "--piece-length", "64", "--allow", "small-piece-length", "--md5"]).cwd(&sb.root).run();
+  let case = json!({"kind": "cli-output-over-a-file-of-the-tree", "p": 64});
+  report.case(Some(fnv(case.to_string().as_bytes())));
+  report.hit("cli:output-over-a-file-of-the-tree");
+  if !out.ok() {
+    report.fail("property", "create-output-differs-from-spec", case, format!("create failed: {}", out.status_s()));
+    return;
+  }
+  let Ok(torrent) = std::fs::read(sb.path("content/old.torrent")) else { return };
+  let (_, pieces, listed) = match torrent_facts(&torrent) {
+    Ok(x) => x,
+    Err(e) => {
+      report.fail("property", "create-output-differs-from-spec", case, e);
+      return;
+    }
+  };
+  let mut concat = Vec::new();
+  for (path, _, _) in &listed {
+    if let Some(f) = files.iter().find(|f| f.0 == path.join("/")) {
+      concat.extend_from_slice(&f.1);
+    }
+  }
+  let want: Vec<u8> = concat.chunks(64).flat_map(|b| sha1::Sha1::from(b).digest().bytes().to_vec()).collect();
+  let lens: Vec<(String, u64)> = listed.iter().map(|f| (f.0.join("/"), f.1)).collect();
+  let want_lens: Vec<(String, u64)> = files.iter().map(|f| (f.0.clone(), f.1.len() as u64)).collect();
+  if lens != want_lens || pieces != want {
+    report.fail("property", "create-output-differs-from-spec", case, format!("listed {lens:?} (the tree held {want_lens:?} when the command started); piece hashes {} the bytes of that tree", if pieces == want { "cover" } else { "do not cover" }));
+  }
+}
+
 fn cli_part(ctx: &Ctx, report: &mut Report) {
   use rayon::prelude::*;
   growing_file(ctx, report);
+  output_inside_the_tree(ctx, report);
   let mut rng = Rng::new(ctx.seed).fork(0xC01C);
   let n = ctx.n(160, 4000);
   let mut cases: Vec<CliCase> = (0..n).map(|_| gen_cli(&mut rng)).collect();
